@@ -7,7 +7,7 @@
    * src/database/query/set_ops.rs  execute_branch_for_set_op: UNION ALL = concatenation; UNION =
      first occurrences (HashSet::insert on the row key); INTERSECT / EXCEPT keep the left rows
      whose key is / is not in the set of right keys, the plain forms additionally only the first
-     occurrence -- so INTERSECT ALL / EXCEPT ALL are decided by MEMBERSHIP, not by counting.
+     occurrence; INTERSECT ALL / EXCEPT ALL count the right occurrences (since 432d38e).
      The row key (row_to_key) is the vector of the DefaultHasher hashes of the Debug rendering of
      each value; it is modelled as the row itself (equal keys iff srow_eqb): hash collisions and
      the injectivity of Debug on (type, value) are outside the model (trusted base).
@@ -17,18 +17,18 @@
      over a base table), or an AND chain containing one, is REPLACED by a semi / anti join of the
      input with the subquery's table under the condition [x = item AND] subquery WHERE (decor):
      the other conjuncts are dropped, NOT IN becomes a plain anti join.
-   * src/sql/planner/convert.rs + src/sql/optimizer/join_analysis.rs: if the condition contains a
-     conjunct column = column, the join becomes a HashSemiJoin / HashAntiJoin on those key pairs
-     ONLY (the rest of the condition is dropped); otherwise a NestedLoopJoin with the condition.
-   * src/database/database.rs (join branch of query_with_columns): key pairs that do not resolve
-     to one left and one right column are ignored, no usable pair = every pair of rows matches;
+   * src/sql/planner/convert.rs + src/sql/optimizer/join_analysis.rs: if the condition consists of
+     nothing but column = column conjuncts (is_pure_equi_join), the join becomes a HashSemiJoin /
+     HashAntiJoin on those key pairs; otherwise a NestedLoopJoin with the whole condition.
+   * src/database/database.rs (join branch of query_with_columns): key pairs whose columns resolve
+     to the same input are checked as equalities on the combined row, unresolvable ones ignored;
      NULL keys never match; the projection resolves plain columns by name and evaluates every
      other select item on the joined row (a subquery item is NULL).
    * src/sql/predicate.rs CompiledPredicate: EXISTS / IN (subquery) that were not decorrelated
      evaluate to TRUE; a scalar subquery is looked up in scalar_subquery_results (computed up
-     front by execute_scalar_subquery for the subqueries found in FilterExec predicates: first
-     row, first column, NULL when there is no row, when the subquery's plan is not a plain table
-     scan; an error when it refers to an outer column) and is missing everywhere else (join
+     front by execute_scalar_subquery for the subqueries found in FilterExec predicates: the
+     value of the only row, NULL when there is no row or when the subquery's plan is not a plain
+     table scan; an error when there are several rows or when it refers to an outer column) and is missing everywhere else (join
      conditions, the subquery's own nested subqueries, set-operation branches, the select list).
    * simple predicates (comparisons of BIGINT / TEXT values, AND / OR / NOT, IS NULL, + and -)
      are evaluated three-valued as in predicate.rs after the C14 repairs.
@@ -50,13 +50,30 @@ Fixpoint filter_seen (p : row -> bool) (seen : table) (t : table) : table :=
       if p x && negb (mem_row x seen) then x :: filter_seen p (x :: seen) t'
       else filter_seen p seen t'
   end.
+(* INTERSECT ALL / EXCEPT ALL: `right_counts.get_mut(key)`: every right occurrence admits /
+   cancels one left occurrence *)
+Fixpoint remove_one (x : row) (t : table) : table :=
+  match t with
+  | [] => []
+  | y :: t' => if srow_eqb x y then t' else y :: remove_one x t'
+  end.
+Fixpoint inter_all (l r : table) : table :=
+  match l with
+  | [] => []
+  | x :: l' => if mem_row x r then x :: inter_all l' (remove_one x r) else inter_all l' r
+  end.
+Fixpoint except_all (l r : table) : table :=
+  match l with
+  | [] => []
+  | x :: l' => if mem_row x r then except_all l' (remove_one x r) else x :: except_all l' r
+  end.
 Definition impl_op (k : setk) (all : bool) (l r : table) : table :=
   match k, all with
   | KUnion, true => l ++ r
   | KUnion, false => filter_seen (fun _ => true) [] (l ++ r)
-  | KIntersect, true => filter (fun x => mem_row x r) l
+  | KIntersect, true => inter_all l r
   | KIntersect, false => filter_seen (fun x => mem_row x r) [] l
-  | KExcept, true => filter (fun x => negb (mem_row x r)) l
+  | KExcept, true => except_all l r
   | KExcept, false => filter_seen (fun x => negb (mem_row x r)) [] l
   end.
 
@@ -319,19 +336,62 @@ Section Join.
       end
     else look_bare l r i.
 
+  (* planner/convert.rs is_pure_equi_join (53a2c94): the hash semi / anti join is planned only when
+     the condition is nothing but column = column conjuncts whose qualified sides name one table
+     of each input; everything else is a nested loop over the whole condition *)
+  Fixpoint all_equi (e : sx) : bool :=
+    match e with
+    | XAnd a b => all_equi a && all_equi b
+    | XCmp CEq (XCol _ _ _) (XCol _ _ _) => true
+    | _ => false
+    end.
+  Definition key_tables_ok (k : (nat * nat * bool) * (nat * nat * bool)) : bool :=
+    let '((l1, _, q1), (l2, _, q2)) := k in
+    if q1 && q2 then ((l1 =? 0)%nat && (l2 =? 1)%nat) || ((l1 =? 1)%nat && (l2 =? 0)%nat) else true.
+  Definition hash_path (c : sx) : bool :=
+    negb (match equi_keys c with [] => true | _ => false end) && all_equi c && forallb key_tables_ok (equi_keys c).
+
+  (* database.rs (824c6c8): a key whose two columns resolve to the same input is not a hash key
+     but is still checked, as an equality on the combined row *)
+  Definition key_same (k : (nat * nat * bool) * (nat * nat * bool)) : option (nat * nat) :=
+    match key_idx (fst k), key_idx (snd k) with
+    | Some a, Some b => if Bool.eqb (a <? lw)%nat (b <? lw)%nat then Some (a, b) else None
+    | _, _ => None
+    end.
+  Fixpoint same_keys (ks : list ((nat * nat * bool) * (nat * nat * bool))) : list (nat * nat) :=
+    match ks with
+    | [] => []
+    | k :: ks' => match key_same k with Some p => p :: same_keys ks' | None => same_keys ks' end
+    end.
+  Fixpoint same_match (ss : list (nat * nat)) (comb : row) : option bool :=
+    match ss with
+    | [] => Some true
+    | (a, b) :: ss' =>
+        match nth_error comb a, nth_error comb b with
+        | Some x, Some y =>
+            match key_eq x y, same_match ss' comb with
+            | Some u, Some v => Some (u && v)
+            | _, _ => None
+            end
+        | _, _ => Some false
+        end
+    end.
+
   (* does the pair (l, r) match *)
   Definition join_match (cond : option sx) (l r : row) : option bool :=
     match cond with
     | None => Some true
     | Some c =>
-        match equi_keys c with
-        | [] => ipass (look_join l r) (fun _ => None) c
-        | ks =>
-            match key_pairs ks with
-            | [] => Some true
-            | ps => hash_match ps l r
-            end
-        end
+        if hash_path c then
+          match same_match (same_keys (equi_keys c)) (l ++ r) with
+          | None => None
+          | Some s =>
+              match key_pairs (equi_keys c) with
+              | [] => Some s
+              | ps => option_map (andb s) (hash_match ps l r)
+              end
+          end
+        else ipass (look_join l r) (fun _ => None) c
     end.
 
   Fixpoint exists_opt (p : row -> option bool) (t : table) : option bool :=
@@ -406,7 +466,12 @@ Section Db.
         | None => SUnm
         | Some T =>
             match w with
-            | None => match T with [] => SVal VNull | r :: _ => match nth_error r i with Some v => SVal v | None => SUnm end end
+            | None =>
+                match T with
+                | [] => SVal VNull
+                | [r] => match nth_error r i with Some v => SVal v | None => SUnm end
+                | _ :: _ :: _ => SErrq                     (* "scalar subquery returned more than one row" *)
+                end
             | Some p =>
                 if own_outer p then SErrq                   (* planning fails: "column not found" *)
                 else
@@ -416,7 +481,8 @@ Section Db.
                       match filter_opt (fun r => ipass (look_own r) (fun _ => None) p) T with
                       | None => SUnm
                       | Some [] => SVal VNull
-                      | Some (r :: _) => match nth_error r i with Some v => SVal v | None => SUnm end
+                      | Some [r] => match nth_error r i with Some v => SVal v | None => SUnm end
+                      | Some (_ :: _ :: _) => SErrq         (* more than one row: an error (855697d) *)
                       end
                   end
             end
